@@ -1,5 +1,5 @@
 """C20 — block-size and score arithmetic on its entire domain (tables exhaustively, predicates by shape)."""
-from ..rules import data, blocksize, features, summary
+from ..rules import data, blocksize, features, summary, beliefs
 
 EXPL = ("Decides: (1) SA-DATA, exhaustively over each table as evaluated by rustc: the 31 block-size strings equal decimal(3<<i); the de Bruijn "
         "constant/table pair maps every valid size 3<<i to i (unused slot 0xff) and log_from_valid reads exactly that table through "
@@ -25,6 +25,8 @@ def run(ctx):
         ctx.guard("C20", "raw", lambda: blocksize.raw_score(ctx, prog))
         ctx.guard("C20", "summaries", lambda: summary.check(ctx, prog, 'block_size::|BlockSizeRelation|is_block_sizes_|compare_block_sizes|score_cap_on|raw_score_by', floor=10))
         ctx.guard("C20", "path summaries", lambda: summary.check_paths(ctx, prog, 'block_size::|BlockSizeRelation|is_block_sizes_|compare_block_sizes|score_cap_on|raw_score_by', floor=6))
+        if c in ("dbg", "unsafe_dbg", "strict_dbg"):
+            ctx.guard("C20", "beliefs", lambda: beliefs.census(ctx, prog, beliefs.SCOPES["C20"][0], floor=beliefs.SCOPES["C20"][1]))
         if c == "unchecked":
             # the `_unchecked` forms of the same helpers are part of the documented surface: each is its `_internal` function
             ctx.guard("C20", "twins", lambda: features.twins(ctx, prog, scope=r"block_size::|score_cap_on_block_hash_comparison|raw_score_by_edit_distance|is_near|compare_sizes|is_far", floor=4))
